@@ -66,6 +66,17 @@ fn main() {
                 Err(_) => ("0".to_string(), "build".to_string()),
                 Ok(cs) => {
                     let nc = cs.constraints.len();
+                    // what the library itself would print for each request / warning (Debug of the
+                    // constraint, Display of the warning content): the CLI's sentences are compared with these
+                    let mut side = String::new();
+                    for (k, r) in cs.constraints.iter().enumerate() {
+                        side += &format!("C {k} {:?}\n", r.constraint());
+                    }
+                    match cs.solve() {
+                        Ok(o) => for w in &o.warnings { side += &format!("W {}\n", w.content); },
+                        Err(f) => for w in &f.warnings { side += &format!("W {}\n", w.content); },
+                    }
+                    std::fs::write(format!("{out_dir}/case_{i}.side"), side).unwrap();
                     let finals = cs.solve_no_metadata(Default::default()).ok().map(|o| o.final_values().to_vec());
                     match cs.solve() {
                         Err(f) => (nc.to_string(), format!("serr {} {} W {}", f.num_vars, f.num_eqs, kinds(&f.warnings))),
